@@ -30,6 +30,7 @@ type caseRule struct {
 	enums   []enumFix
 	errs    []errFix
 	vals    []func(x *Explorer, fr *Frame, v ssa.Value) AV
+	calls   []func(x *Explorer, fr *Frame, c ssa.CallInstruction) ([]AV, CallMode)
 	commit  func(e *Effect, in ssa.Instruction) bool
 	reached map[ssa.Instruction]bool
 	used    map[string]int // how often each atom decided something (vacuity control)
@@ -72,6 +73,11 @@ func (c *caseRule) decide(x *Explorer, fr *Frame, op token.Token, l, r ssa.Value
 func (c *caseRule) CallResult(x *Explorer, fr *Frame, call ssa.CallInstruction) ([]AV, CallMode) {
 	cc := call.Common()
 	k := callKey(cc)
+	for _, f := range c.calls {
+		if vals, mode := f(x, fr, call); mode != CallDefault {
+			return vals, mode
+		}
+	}
 	if op, ok := intCmp[k]; ok && len(cc.Args) == 2 {
 		if v := c.decide(x, fr, op, cc.Args[0], cc.Args[1]); v.K != avUnknown {
 			return []AV{v}, CallReplace
